@@ -60,6 +60,64 @@ def runBD (fast : Bool) (n mt b d n0 : String) (rest : List String) : String :=
     if fast then showSim (fbdRun P n0 ds) else showSim (bdRun P n0 ds)
   | _, _, _, _, _, _ => "bad-op"
 
+/-- `bdx N|- maxT|- nExtinct|- nTotal|- retain(0|1) b d n0 draws…` -/
+def runBDX (n mt nx nt ret b d n0 : String) (rest : List String) : String :=
+  match optNat n, optInt mt, optNat nx, optNat nt, b.toInt?, d.toInt?, n0.toNat?, rest.mapM parseDraw with
+  | some n, some mt, some nx, some nt, some b, some d, some n0, some ds =>
+    if ret != "0" && ret != "1" then "bad-op" else
+    let P : BDParams := { nTips := n, maxTime := mt, b := b, d := d, nExtinct := nx, nTotal := nt, retain := ret == "1" }
+    showSim (bdRun P n0 ds)
+  | _, _, _, _, _, _, _, _ => "bad-op"
+
+/-- `gsa N G b d n0 draws…`; answer `ok <tree>`, `raises` (the code's TypeError), or `err <kind>` -/
+def runGSA (n g b d n0 : String) (rest : List String) : String :=
+  match n.toNat?, g.toNat?, b.toInt?, d.toInt?, n0.toNat?, rest.mapM parseDraw with
+  | some n, some g, some b, some d, some n0, some ds =>
+    match gsaRun { nTips := some n, maxTime := none, b := b, d := d } n g n0 ds with
+    | .error e => "err " ++ errName e
+    | .ok none => "raises"
+    | .ok (some r) => "ok " ++ (renderBT r.taxa r.tree 0).1
+  | _, _, _, _, _, _ => "bad-op"
+
+/-- a start tree for `tree=`: pre-order numbered parent array (node 0 the root), every node with 0 or 2 children -/
+def buildBT (fuel : Nat) (par : Array Int) (lens : Array Int) (i : Nat) : Option BT :=
+  match fuel with
+  | 0 => none
+  | f + 1 =>
+    match (List.range par.size).filter (fun j => par[j]! == (i : Int)) with
+    | [] => some (.tip i (lens[i]!) true)
+    | [a, b] =>
+      match buildBT f par lens a, buildBT f par lens b with
+      | some x, some y => some (.bin i (lens[i]!) x y)
+      | _, _ => none
+    | _ => none
+
+/-- `bdt N|- maxT|- b d n0 m par×m len×m draws…`: `birth_death_tree(..., tree=<start>)` -/
+def runBDT (n mt b d n0 m : String) (toks : List String) : String :=
+  match optNat n, optInt mt, b.toInt?, d.toInt?, n0.toNat?, m.toNat? with
+  | some n, some mt, some b, some d, some n0, some m =>
+    if toks.length < 2 * m || m == 0 then "bad-op" else
+    match (toks.take m).mapM String.toInt?, ((toks.drop m).take m).mapM String.toInt?, (toks.drop (2 * m)).mapM parseDraw with
+    | some par, some lens, some ds =>
+      let ok := par.head? == some (-1) && (List.range m).all (fun j => j == 0 || (0 ≤ par.toArray[j]! && par.toArray[j]! < (j : Int)))
+      if !ok then "bad-op" else
+      match buildBT (m + 1) par.toArray lens.toArray 0 with
+      | none => "bad-op"
+      | some t => showSim (bdRun { nTips := n, maxTime := mt, b := b, d := d, start := t } n0 ds)
+    | _, _, _ => "bad-op"
+  | _, _, _, _, _, _ => "bad-op"
+
+/-- `dbd b d rs ntax|- maxgens|- repeat(0|1) draws…`; answer `ok <tree>`, `extinct` (TreeSimTotalExtinctionException) or `err` -/
+def runDBD (b d rs n mg rep : String) (rest : List String) : String :=
+  match b.toInt?, d.toInt?, rs.toInt?, optNat n, optNat mg, rest.mapM parseDraw with
+  | some b, some d, some rs, some n, some mg, some ds =>
+    if (rep != "0" && rep != "1") || rs ≤ 0 then "bad-op" else
+    match dbdRun { b := b, d := d, rs := rs, ntax := n, maxGens := mg, repeatOK := rep == "1" } ds with
+    | .error e => "err " ++ errName e
+    | .ok none => "extinct"
+    | .ok (some r) => "ok " ++ (renderBT r.taxa r.tree 0).1
+  | _, _, _, _, _, _ => "bad-op"
+
 def runCont (mode m : String) (toks : List String) : String :=
   match m.toNat? with
   | none => "bad-op"
@@ -91,6 +149,10 @@ def handle (ws : List String) : String :=
   match ws with
   | "bd" :: n :: mt :: b :: d :: n0 :: rest => runBD false n mt b d n0 rest
   | "fbd" :: n :: mt :: b :: d :: n0 :: rest => runBD true n mt b d n0 rest
+  | "dbd" :: b :: d :: rs :: n :: mg :: rep :: rest => runDBD b d rs n mg rep rest
+  | "bdt" :: n :: mt :: b :: d :: n0 :: m :: toks => runBDT n mt b d n0 m toks
+  | "gsa" :: n :: g :: b :: d :: n0 :: rest => runGSA n g b d n0 rest
+  | "bdx" :: n :: mt :: nx :: nt :: ret :: b :: d :: n0 :: rest => runBDX n mt nx nt ret b d n0 rest
   | "pb" :: n :: rest =>
     match n.toNat?, rest.mapM parseDraw with
     | some n, some ds => showSim (pbRun n ds)
